@@ -25,8 +25,9 @@ Init ==
 \* choose the Kids of node bi (only nodes whose Kids can ever be read get a non-empty choice)
 Build ==
     /\ pc = "build" /\ bi <= N
-    /\ IF g.typ[bi] = "Pages" \/ (bi = 1 /\ g.typ[bi] # "NonDict")
+    /\ IF g.typ[bi] = "Pages" \/ (bi = 1 /\ g.typ[bi] \notin NotDict)
        THEN \E ks \in KidSeqs : g' = [g EXCEPT !.kids[bi] = ks]
+       ELSE IF g.typ[bi] = "StrmPages" THEN \E ks \in {<<>>} \cup {<<t>> : t \in Targets} : g' = [g EXCEPT !.kids[bi] = ks]
        ELSE g' = g
     /\ bi' = bi + 1
     /\ UNCHANGED <<cur, stack, budget, emitted, pc, steps>>
